@@ -202,8 +202,9 @@ def parts(tier):
 
     # history independence of the operations of this property (shared battery, see mc/props/live.py)
     from mc.props import live as _live, tierops as _tierops
-    _hseeds = [("I", "t", 0.0, 4.0, D.labelled(x)) for x in D.interval_sets(D.unit_grid(5), 2)] + \
-              [("P", "t", 0.0, 4.0, D.labelled_points(x)) for x in D.point_sets(D.unit_grid(5), 2)]
+    # (the full seed set runs in C13; here: the 3-entry seeds of live.py plus these)
+    _hseeds = [("I", "t", 0.0, 4.0, ((0.0, 1.0, "a"), (1.0, 3.0, "b"))), ("I", "t", 0.0, 4.0, ((1.0, 2.0, "a"),)),
+               ("P", "t", 0.0, 4.0, ((1.0, "x"), (3.0, "y")))]
     _hothers = {"I": _tierops.OTHERS_I, "P": _tierops.OTHERS_P}
     _hvals = (0.0, 0.5, 1.0, 2.0, 3.0, 4.5)
     ps.append(InputPart(
